@@ -83,11 +83,36 @@ theorem call_len_nil {F : GFile} {w : GWorld} (h : F.findFunc "len" = none) :
   obtain ⟨k, rfl, -⟩ := succ_of_le hk
   rw [callG.eq_def]; simp [h]
 
+/-- the integer conversions `dyn_data_expr` spells as calls -/
+def intConvNames : List String := ["int8", "int16", "int32", "int64", "uint8", "uint16", "uint32", "uint64"]
+
 /-- what the file must (not) contain for the `Vec` builtins: `append`, `len`, `int32` keep their Go meaning -/
 structure VecLink (F : GFile) : Prop where
   append : F.findFunc "append" = none
   len : F.findFunc "len" = none
   int32 : F.findFunc "int32" = none
+  /-- the integer conversions keep their Go meaning too (a numeric literal that becomes a trait object) -/
+  conv : ∀ n, n ∈ intConvNames → F.findFunc n = none
+
+/-- the conversion `T(x)` of an integer to the integer type `T` -/
+theorem call_conv {F : GFile} {w : GWorld} {name : String} {b b0 : Nat} {s s0 : Bool} {x : Int} (hmem : name ∈ intConvNames)
+    (hn : isIntTy name = some (b, s)) (h : F.findFunc name = none) :
+    CallS F w (.func name) [.int b0 s0 x] (.ok (.int b s (Sem.wrap b s x)) w) := by
+  refine ⟨1, fun k hk => ?_⟩
+  obtain ⟨k, rfl, -⟩ := succ_of_le hk
+  simp only [intConvNames, List.mem_cons, List.mem_singleton, List.not_mem_nil, or_false] at hmem
+  rcases hmem with rfl | rfl | rfl | rfl | rfl | rfl | rfl | rfl <;>
+    (simp only [isIntTy, Option.some.injEq, Prod.mk.injEq] at hn; obtain ⟨rfl, rfl⟩ := hn
+     rw [callG.eq_def]; simp [h, isIntTy, convert])
+
+/-- what `convName` answers: the name of the conversion to that integer type, or a float type -/
+theorem convName_spec {ty : Ty} {n : String} (h : convName ty = some n) :
+    (∃ b s, ty = .int b s ∧ isIntTy n = some (b, s) ∧ n ∈ intConvNames) ∨ (∃ b, ty = .float b) := by
+  unfold convName at h
+  split at h <;> first
+    | (injection h with h; subst h; exact Or.inl ⟨_, _, rfl, rfl, by simp [intConvNames]⟩)
+    | (injection h with h; exact Or.inr ⟨_, rfl⟩)
+    | cases h
 
 /-! ### related lists -/
 
